@@ -7,7 +7,9 @@ from . import tzif as T
 
 THEOREMS = {'C01': ['Cctz.C01.breakTime_table', 'Cctz.C01.breakTime_shift', 'Cctz.C01.fixed_table', 'Cctz.C01.fixed_lookup',
                     'Cctz.C01Rule.tables', 'Cctz.C01Rule.transOffset', 'Cctz.C01Rule.ruleDay_periodic', 'Cctz.C01Rule.ruleInstant_periodic',
-                    'Cctz.C01Rule.extendLoop_state', 'Cctz.C01Rule.extendLoop_trans'],
+                    'Cctz.C01Rule.extendLoop_state', 'Cctz.C01Rule.extendLoop_trans',
+                    'Cctz.C01Decode.decode', 'Cctz.C01Decode.load_decodes', 'Cctz.C01Decode.isTzif_unique', 'Cctz.C01Decode.load_content',
+                    'Cctz.C01Decode.load_rejects', 'Cctz.C01Decode.load_accepts'],
             'C02': ['Cctz.C02.farApart_separated', 'Cctz.C02.makeTime', 'Cctz.C02.shift', 'Cctz.C02.makeTime_needs_TimesInRange', 'Cctz.C02.shift_needs_after_last'],
             'C03': ['Cctz.C03.roundtrip', 'Cctz.C03.converse'],
             'C06': ['Cctz.C06.convert_monotone', 'Cctz.C06.convert_def', 'Cctz.C06.convert_monotone_needs_TimesInRange', 'Cctz.C06.convert_monotone_needs_FirstEntryRoom'],
@@ -132,7 +134,7 @@ def expected_bt(zone, t):
 # ------------------------------------------------------------------------------------ C01
 
 def run_C01(chk):
-    chk.prepare_model(['Cctz.Properties.C01', 'Cctz.Properties.C01Rule'], THEOREMS['C01'])
+    chk.prepare_model(['Cctz.Properties.C01', 'Cctz.Properties.C01Rule', 'Cctz.Properties.C01Decode'], THEOREMS['C01'])
     exe = chk.harness('san')
     scale = chk.tier if not chk.broken else 'thorough'
     if exe is None or not getattr(chk, 'driver_ok', False):
